@@ -67,3 +67,25 @@ Definition ref_codec : codec :=
   mkcodec (fun _ el => List.concat (map scalar_text el)) ref_frombuffer l2s (fun s => Some (s2l s)).
 Definition ref_text : textlayer jtree := mktext jtree (fun t => t) Some (fun _ => false).
 
+
+(* a text layer that also has an empty text (an existing empty file): None *)
+Definition ref_text_e : textlayer (option jtree) :=
+  mktext (option jtree) Some (fun o => o) (fun o => match o with None => true | Some _ => false end).
+
+(* reference float layer.  repr(x): the exact decimal expansion of x ('%.nf' % x with n = -e digits when
+   x = m * 2^e, e < 0; one digit otherwise) -- longer than CPython's shortest repr, the same value.
+   float(): the exact conversion of the decimals that are binary64 values (the only ones the round-trip
+   hypothesis speaks about); any other decimal is given NaN, the reference is never asked for one *)
+Definition ref_frepr (f : ftok) : list ascii :=
+  match f with
+  | FFin _ _ e => fmt (if e <? 0 then - e else 1) f
+  | _ => fmt 1 f
+  end.
+Fixpoint strip2 (p : positive) (e : Z) : Z * Z :=
+  match p with xO q => strip2 q (e + 1) | _ => (Zpos p, e) end.
+Definition norm2 (neg : bool) (v e : Z) : ftok :=
+  match v with Zpos p => FFin neg (fst (strip2 p e)) (snd (strip2 p e)) | _ => FFin neg 0 0 end.
+Definition ref_fnearest (neg : bool) (mant e10 : Z) : ftok :=
+  if 0 <=? e10 then norm2 neg (mant * 10 ^ e10) 0
+  else if mant mod 5 ^ (- e10) =? 0 then norm2 neg (mant / 5 ^ (- e10)) e10 else FNaN.
+Definition ref_float : floatlayer := mkfl ref_frepr ref_fnearest.
